@@ -45,10 +45,24 @@ def wrong_events(w, flags=None):
     return wrong
 
 
+def _status_reader(w, name, context, args):
+    """user hook that looks at the status of the running feature/rule (allowed at any time; must not freeze it)."""
+    if name in ("after_scenario", "after_step", "before_scenario"):
+        f = getattr(context, "feature", None)
+        if f is not None:
+            f.status
+        r = getattr(context, "rule", None) if "rule" in context else None
+        if r is not None:
+            r.status
+
+
 def h_stage1(sx):
     p = sx.params
     checks = p.get("checks", ["verdict"])
-    w, flags = build_world(sx)
+    extra = None
+    if p.get("opts", {}).get("read_status_in_hooks"):
+        extra = {"hooks": True, "fault": bool(p["opts"].get("fault")), "hook_probe": _status_reader}
+    w, flags = build_world(sx, extra)
     if "exitcode" in checks:
         rc = _run_through_main(w)
     else:
